@@ -11,7 +11,14 @@ Scope (exhaustive inside it):
   * tables up to 3x3: every row slice of a reduced cube and every row mask (Vector / list, right
     and wrong length) applied to every column alike; every tuple of up to 3 names over the existing
     names plus a missing one and a case variant (missing must raise, repeated names allowed);
-    t[rows][cols] == t[cols][rows] in cells and column_names().
+    t[rows][cols] == t[cols][rows] in cells and column_names();
+  * the same on tables whose column names differ only in case ('Val', 'val') or only in sanitisation
+    ('my col', 'my_col'), either column first: every name tuple must return exactly the named columns;
+  * selection by name after a rename through a live column view (c = t['a']; c.name = 'z'; also
+    t.a.name, t.cols()[i].name, two renames of one view, two columns swapping names, a new name that
+    differs from a neighbour only in case), the selection being the FIRST access after the rename:
+    every name tuple (length <= 2; 3 in the thorough tier) over new + old + missing names - an old name
+    must raise, a new name must resolve to its column - and t[rows][cols] == t[cols][rows] == oracle.
 Oracle: Python list indexing / list comprehensions.
 """
 import itertools
@@ -90,7 +97,104 @@ def tables(maxr=3):
             yield {nm: TCOLS[nm][:r] for nm in names[:c]}
 
 
+# ---- strengthen: case-twin names and renames through live views -----------------------------------
+TWIN_TABLES = [
+    {'Val': [1, 2, 3], 'val': [4, 5, 6]}, {'val': [4, 5, 6], 'Val': [1, 2, 3]},
+    {'Val': [1, 2, 3], 'k': ['x', 'y', 'z'], 'val': [None, 2.5, 0.5]}, {'k': ['x', 'y', 'z'], 'val': [None, 2.5, 0.5], 'Val': [1, 2, 3]},
+    {'my col': [1, 2, 3], 'my_col': ['x', 'y', 'z']}, {'my_col': ['x', 'y', 'z'], 'my col': [1, 2, 3]},
+]
+RN_ROWKEYS = [['slice', [1, None, None]], ['slice', [None, None, -1]], ['slice', [0, 0, None]], ['slice', [5, 9, None]],
+              ['slice', [None, -1, 2]], ['vmask', 'alt'], ['lmask', 'all'], ['vmask', 'none']]
+
+
+def rn_rowkey(rk, r):
+    if rk[0] == 'slice':
+        return rk
+    m = {'alt': [i % 2 == 0 for i in range(r)], 'all': [True] * r, 'none': [False] * r}[rk[1]]
+    return [rk[0], m]
+
+
+def rename_plans(names):
+    """Lists of [column index, new name, how]; views are taken first, then the names are set in order."""
+    plans = []
+    for i, nm in enumerate(names):
+        for how in ('view', 'attr', 'cols'):
+            plans.append([[i, 'z', how]])
+        plans.append([[i, 'x y', 'view']])
+        plans.append([[i, 'z', 'view'], [i, 'y', 'view']])            # renamed twice through the same view
+        for other in names:
+            if other != nm:
+                plans.append([[i, other.upper(), 'view']])            # now differs from a neighbour only in case
+    for i in range(len(names)):
+        for j in range(i + 1, len(names)):
+            plans.append([[i, names[j], 'view'], [j, names[i], 'view']])   # two columns swap names
+            plans.append([[j, names[i], 'cols'], [i, names[j], 'cols']])
+    return plans
+
+
+def names_after(names, plan):
+    cur = list(names)
+    gone = []
+    for i, new, how in plan:
+        gone.append(cur[i])
+        cur[i] = new
+    return cur, [g for g in dict.fromkeys(gone) if g not in cur]
+
+
+def cases_strengthen(tier):
+    # ---- names that differ only in case / only in sanitisation
+    for full in TWIN_TABLES:
+        for r in (3, 2, 1, 0):
+            t = {k: v[:r] for k, v in full.items()}
+            names = list(t)
+            universe = names + ['missing']
+            tuples = []
+            for ln in (1, 2, 3):
+                tuples += [list(c) for c in itertools.product(universe, repeat=ln)]
+            for names_key in tuples:
+                yield {'k': 'tcols', 't': lit(t), 'names': names_key, 'twin': 1}
+            for nm in universe:
+                yield {'k': 'tcol1', 't': lit(t), 'name': nm, 'twin': 1}
+            good = [c for c in tuples if all(x in names for x in c) and len(c) <= 2]
+            for rk0 in RN_ROWKEYS:
+                rk = rn_rowkey(rk0, r)
+                if rk[0] == 'lmask' and not r:
+                    continue
+                for c in good:
+                    yield {'k': 'commute', 't': lit(t), 'rk': rk, 'names': c, 'twin': 1}
+                for nm in names:
+                    yield {'k': 'commute1', 't': lit(t), 'rk': rk, 'name': nm, 'twin': 1}
+    # ---- selection by name right after a rename through a live view
+    for t in tables():
+        names = list(t)
+        r = len(t[names[0]])
+        if tier == 'quick' and r in (1, 2) and len(names) != 2:
+            continue
+        for plan in rename_plans(names):
+            after, gone = names_after(names, plan)
+            universe = list(dict.fromkeys(after + gone + ['missing']))
+            tuples = []
+            for ln in ((1, 2) if tier == 'quick' else (1, 2, 3)):
+                tuples += [list(c) for c in itertools.product(universe, repeat=ln)]
+            for names_key in tuples:
+                yield {'k': 'rn', 'chk': 'names', 't': lit(t), 'plan': plan, 'names': names_key}
+            for nm in universe:
+                yield {'k': 'rn', 'chk': 'name1', 't': lit(t), 'plan': plan, 'names': [nm]}
+            good = [c for c in tuples if all(after.count(x) == 1 for x in c) and len(c) <= 2]
+            for rk0 in RN_ROWKEYS:
+                rk = rn_rowkey(rk0, r)
+                if rk[0] == 'lmask' and not r:
+                    continue
+                for c in good:
+                    yield {'k': 'rn', 'chk': 'commute', 't': lit(t), 'plan': plan, 'names': c, 'rk': rk}
+
+
 def cases(tier, seed):
+    yield from cases_base(tier, seed)
+    yield from cases_strengthen(tier)
+
+
+def cases_base(tier, seed):
     variants = ['int', 'str', 'nfloat'] + (['date'] if tier != 'quick' else [])
     # ---- vector slices / ints / masks
     for var in variants:
@@ -644,9 +748,139 @@ def eval_trowint(case):
     return []
 
 
+def _loose(n):
+    return n.lower().replace(' ', '_')
+
+
+def renamed_table(d, plan):
+    """A fresh table with the plan applied: all views taken first, then the names set; nothing else touched."""
+    t = mktable(d)
+    cur = list(d)
+    views = {}
+    for i, new, how in plan:
+        if (i, how) in views:
+            continue
+        if how == 'view':
+            views[(i, how)] = t[cur[i]]
+        elif how == 'attr':
+            views[(i, how)] = getattr(t, cur[i])
+        else:
+            views[(i, how)] = t.cols()[i]
+    for i, new, how in plan:
+        views[(i, how)].name = new
+    return t
+
+
+def plan_src(d, plan):
+    cur = list(d)
+    parts = []
+    for i, new, how in plan:
+        tgt = {'view': f't[{cur[i]!r}]', 'attr': f't.{cur[i]}', 'cols': f't.cols()[{i}]'}[how]
+        parts.append(f'{tgt}.name = {new!r}')
+    return '; '.join(parts)
+
+
+def eval_rn(case):
+    d = cev(case['t'])
+    plan, names, chk = case['plan'], case['names'], case['chk']
+    have = list(d)
+    after, gone = names_after(have, plan)
+    data = [d[h] for h in have]
+    pre = f't = Table({case["t"]}); views taken, then {plan_src(d, plan)}; '
+    # resolve every requested name by the statement: exact name -> that column; absent -> error
+    want_idx, must_raise, undecided = [], None, False
+    for n in names:
+        exact = [i for i, x in enumerate(after) if x == n]
+        if len(exact) == 1:
+            want_idx.append(exact[0])
+        elif len(exact) > 1:
+            undecided = True
+        elif any(_loose(x) == _loose(n) for x in after):
+            undecided = True                       # a case / sanitisation variant may be resolved or rejected
+        else:
+            must_raise = must_raise or n
+    if undecided and not must_raise:
+        return []
+    try:
+        t = renamed_table(d, plan)
+    except Exception as e:
+        return [Fail(f'C07:rename-through-view:raised-{type(e).__name__}', pre + f'raised {e!r}', None, repr(e))]
+    stale = must_raise in gone if must_raise else False
+    if chk in ('names', 'name1'):
+        single = chk == 'name1'
+        site = 'Table.getitem.name' if single else 'Table.getitem.names'
+        keysrc = repr(names[0]) if single else ', '.join(repr(n) for n in names) + (',' if len(names) == 1 else '')
+        src = pre + f't[{keysrc}]'
+        try:
+            r = t[names[0]] if single else t[tuple(names)]
+        except Exception as e:
+            if must_raise:
+                return []
+            return [Fail(f'C07:{site}:raised-{type(e).__name__}-after-rename', src + f' raised {e!r}; the columns are now named {after!r}',
+                         [after[i] for i in want_idx], repr(e))]
+        if must_raise:
+            cls = 'stale-name-accepted-after-rename' if stale else 'missing-name-accepted'
+            obs = r.column_names() if isinstance(r, Table) else getattr(r, 'name', r)
+            return [Fail(f'C07:{site}:{cls}', src + f' did not raise; the columns are now named {after!r}, {must_raise!r} does not exist', 'an error', obs)]
+        want = [data[i] for i in want_idx]
+        fails = []
+        if single:
+            if not isinstance(r, Vector) or isinstance(r, Table) or not same(list(r), want[0]) or r.name != names[0]:
+                fails.append(Fail(f'C07:{site}:wrong-column-after-rename', src + f' is {getattr(r, "name", None)!r}: {list(r) if isinstance(r, Vector) else r!r}',
+                                  (names[0], want[0]), r))
+            return fails
+        if not isinstance(r, Table):
+            return [Fail(f'C07:{site}:not-a-table', src + f' returned {type(r).__name__}', want, r)]
+        if r.column_names() != names:
+            fails.append(Fail(f'C07:{site}:wrong-column-names-after-rename', src + f'.column_names() = {r.column_names()!r}', names, r.column_names()))
+        if not same(table_cells(r), want):
+            fails.append(Fail(f'C07:{site}:wrong-cells-after-rename', src + f': {table_cells(r)!r}', want, table_cells(r)))
+        m = truthful(r)
+        if m:
+            fails.append(Fail(f'C03:{site}:truthful', src + ': ' + m, None, None))
+        if t.column_names() != after:
+            fails.append(Fail(f'C07:{site}:source-names-changed', src + f': t.column_names() = {t.column_names()!r}', after, t.column_names()))
+        return fails
+    # commute: each path is the first access on its own freshly renamed table
+    rk = case['rk']
+    if must_raise or undecided:
+        return []
+    colsrc = ', '.join(repr(n) for n in names) + (',' if len(names) == 1 else '')
+    src1, src2 = f't[{rowkey_src(rk)}][{colsrc}]', f't[{colsrc}][{rowkey_src(rk)}]'
+    what = pre + f'{src1} vs {src2}'
+    site = 'Table.getitem:rows-cols-commute'
+    want = [py_rows(data[i], rk) for i in want_idx]
+    try:
+        p, e1 = t[rowkey(rk)][tuple(names)], None
+    except Exception as e:
+        p, e1 = None, e
+    try:
+        q, e2 = renamed_table(d, plan)[tuple(names)][rowkey(rk)], None
+    except Exception as e:
+        q, e2 = None, e
+    if e1 or e2:
+        if e1 and e2:
+            return [Fail(f'C07:{site}:both-raise-after-rename', what + f': {e1!r} / {e2!r}', want, None)]
+        return [Fail(f'C07:{site}:one-path-raises-after-rename', what + f': rows-then-cols {e1!r}; cols-then-rows {e2!r}', want, repr(e1 or e2))]
+    if not isinstance(p, Table) or not isinstance(q, Table):
+        return [Fail(f'C07:{site}:not-a-table', what + f': {type(p).__name__} / {type(q).__name__}', None, None)]
+    c1, c2 = table_cells(p), table_cells(q)
+    fails = []
+    if not same(c1, c2):
+        fails.append(Fail(f'C07:{site}:cells-differ-after-rename', what + f': {c1!r} != {c2!r}', c1, c2))
+    elif not same(c1, want):
+        # the empty-slice family is Vector.getitem's own defect; anything else is the selection
+        fails.append(Fail(f'C07:{site}:wrong-cells-after-rename', what + f': both give {c1!r}, expected {want!r}', want, c1))
+    if p.column_names() != q.column_names():
+        fails.append(Fail(f'C07:{site}:column-names-differ-after-rename', what + f': {p.column_names()!r} != {q.column_names()!r}', p.column_names(), q.column_names()))
+    elif p.column_names() != names:
+        fails.append(Fail(f'C07:{site}:wrong-column-names-after-rename', what + f': {p.column_names()!r}', names, p.column_names()))
+    return fails
+
+
 EVAL = {'slice': eval_slice, 'int': eval_int, 'mask': eval_mask, 'badmask': eval_badmask, 'cmp': eval_cmp, 'logic': eval_logic, 'not': eval_not,
         'trow': eval_trow, 'tbadmask': eval_tbadmask, 'tcols': eval_tcols, 'tcol1': eval_tcol1, 'commute': eval_commute, 'commute1': eval_commute,
-        'trowint': eval_trowint}
+        'trowint': eval_trowint, 'rn': eval_rn}
 
 
 def evaluate(case):
@@ -658,6 +892,8 @@ def evaluate(case):
 
 def nontrivial(case):
     k = case['k']
+    if k == 'rn':
+        return (k, case['chk'], case['t'], str(case['plan']), str(case['names']), str(case.get('rk')))
     if k == 'slice':
         n = case['n']
         s = slice(*case['key'])
@@ -683,6 +919,7 @@ if __name__ == '__main__':
               'and of length n-1, n+1, n+2 (must raise); comparisons (6 operators) and logical operators (& | ^ ~) on vectors of length 0..3 over '
               '14 family pairs in vector/scalar/list/reflected forms vs Python elementwise, result non-nullable bool; tables 0..3 rows x 1..3 columns: '
               'every row slice of a reduced cube, every row mask, wrong-length masks, every name tuple of length<=3 over existing + missing + '
-              'case-variant names, t[rows][cols] == t[cols][rows].  distinct = distinct (selected index tuple, key sign pattern) etc.',
+              'case-variant names, t[rows][cols] == t[cols][rows]; the same on tables whose names differ only in case / sanitisation; name selection '
+              'as the first access after renames through live column views (single, repeated, swap, case-twin), old names must raise.  distinct = distinct (selected index tuple, key sign pattern) etc.',
          bound=lambda tier: {'max_len': 5, 'slice_cube': '16x16x7', 'cmp_max_len': 3, 'table': '3x3', 'variants': 3 if tier == 'quick' else 4},
          nontrivial=nontrivial)
